@@ -97,6 +97,13 @@ class World:
                     p['has_read'] = p['has_write'] = False
                 p['needscfg'] = False
             cls = modgen.build_class(ms, self.events, hw=self.hw)
+            if rng.random() < 0.35:
+                # accessibles declared optional by a base class and not implemented by this class: they do not exist here
+                import frappy.core as C
+                holder = type('OptHolder', (), {'optpar': C.Parameter('optional parameter', C.FloatRange(), optional=True),
+                                                 'optcmd': C.Command(description='optional command', optional=True)})
+                cls = type(cls.__name__, (cls, holder), {'__module__': cls.__module__, '__doc__': cls.__doc__})
+                ms['optional'] = ['optpar', 'optcmd']
             cls.__name__ = f'Gen{self.k}_{ms["name"]}'
             setattr(self.genmod, cls.__name__, cls)
             ms['clspath'] = f'{GENMOD}.{cls.__name__}'
@@ -178,7 +185,7 @@ class World:
 
     ERRORS = ['unknown-module-property', 'unknown-parameter-property', 'wrong-typed-value', 'wrong-typed-default',
               'wrong-typed-parameter-property', 'wrong-typed-module-property', 'missing-description', 'inverted-limits',
-              'missing-required-value', 'unknown-datatype-property']
+              'missing-required-value', 'unknown-datatype-property', 'config-for-unimplemented-optional']
 
     def inject(self, ms, cfg, kind, pname=None):
         """mutate the config of one module; returns False if not applicable"""
@@ -187,6 +194,13 @@ class World:
         params = [p for p in ms['params'] if pname is None or p['name'] == pname]
         if kind == 'unknown-module-property':
             items[rng.choice(['zz_unknown', 'valeu', 'P0', 'pollintervall'])] = ('bare', {'value': 1}, None)
+            return True
+        if kind == 'config-for-unimplemented-optional':
+            if not ms.get('optional'):
+                return False
+            name = rng.choice(ms['optional'])
+            items[name] = rng.choice([('bare', {'value': 1.0}, None), ('param', {'visibility': 'expert'}, None),
+                                      ('param', {'value': 2.0}, None), ('param', {'description': 'configured'}, None)])
             return True
         p = rng.choice(params)
         name = p['name']
